@@ -501,10 +501,32 @@ func sameValue(value1 *ast.Value, value2 *ast.Value) bool {
 	if value1.Kind != value2.Kind {
 		return false
 	}
-	if value1.Raw != value2.Raw {
-		return false
+	switch value1.Kind {
+	case ast.ListValue:
+		// lists carry their contents in Children, not in Raw
+		if len(value1.Children) != len(value2.Children) {
+			return false
+		}
+		for i := range value1.Children {
+			if !sameValue(value1.Children[i].Value, value2.Children[i].Value) {
+				return false
+			}
+		}
+		return true
+	case ast.ObjectValue:
+		// the order of input object fields does not matter
+		if len(value1.Children) != len(value2.Children) {
+			return false
+		}
+		for _, field1 := range value1.Children {
+			field2 := value2.Children.ForName(field1.Name)
+			if field2 == nil || !sameValue(field1.Value, field2) {
+				return false
+			}
+		}
+		return true
 	}
-	return true
+	return value1.Raw == value2.Raw
 }
 
 func doTypesConflict(walker *Walker, type1 *ast.Type, type2 *ast.Type) bool {
